@@ -43,6 +43,9 @@ func (eval Evaluator) ApplyEvaluationKey(ctIn *Ciphertext, evk *EvaluationKey, o
 	level := utils.Min(ctIn.Level(), opOut.Level())
 	ringQ := eval.params.RingQ().AtLevel(level)
 
+	// The output is at the common level of the input and the receiver.
+	opOut.Resize(opOut.Degree(), level)
+
 	NIn := ctIn.Value[0].N()
 	NOut := opOut.Value[0].N()
 
